@@ -273,7 +273,11 @@ theorem bytesN_lawful (n : Nat) : Lawful (bytesN n) where
       exact ⟨x, hb⟩
     · simp at h
 
-theorem vecBytes_lawful (n : Nat) : Lawful (vecBytes n) := bytesN_lawful n
+theorem vecBytes_lawful (n : Nat) : Lawful (vecBytes n) where
+  dec_enc := (bytesN_lawful n).dec_enc
+  size_eq _ _ := rfl
+  dec_wf := (bytesN_lawful n).dec_wf
+  dec_suffix := (bytesN_lawful n).dec_suffix
 
 theorem skipByte_lawful : Lawful skipByte where
   dec_enc a r _ := by simp [skipByte]
